@@ -14,6 +14,8 @@ package main
 
 import (
 	"bytes"
+	"crypto/aes"
+	"crypto/cipher"
 	"crypto/sha256"
 	"encoding/base64"
 	"encoding/hex"
@@ -368,4 +370,206 @@ func c02SelfLZ4(b []byte) []byte {
 	_, _ = zw.Write(b)
 	_ = zw.Close()
 	return zb.Bytes()
+}
+
+// ---------------------------------------------------------------------------------------------------------
+// Beyond plain text: what an observer of the store / of the cookies can do with SEVERAL values, and with the
+// store's own contents as key material. Written against the documented formats only (store value = 12-byte GCM
+// nonce ‖ ciphertext ‖ 16-byte tag under the per-ticket key; cookie / CSRF payload = 16-byte CFB IV ‖ ciphertext
+// under the cookie secret); no repository code is called.
+
+// c02CookieIV returns the IV of a cookie-store session cookie / CSRF cookie value (first 16 bytes of the decoded
+// first field). ok=false when the value does not start with 24 base64url characters.
+func c02CookieIV(value string) (string, bool) {
+	f := value
+	if k := strings.IndexByte(f, '|'); k >= 0 {
+		f = f[:k]
+	}
+	if len(f) < 24 {
+		return "", false
+	}
+	b, err := base64.URLEncoding.DecodeString(f[:24])
+	if err != nil || len(b) < 16 {
+		return "", false
+	}
+	return string(b[:16]), true
+}
+
+type c02KeyCand struct {
+	From string
+	Key  []byte
+}
+
+// c02StoreKeyCandidates derives candidate AES keys ONLY from what a reader of the store sees of one entry: every
+// 16/24/32-byte window of (a) the hex-decoded hex runs of the key name, (b) the raw key-name bytes, (c) the leading
+// bytes of the value itself.
+func c02StoreKeyCandidates(name string, val []byte) []c02KeyCand {
+	var out []c02KeyCand
+	windows := func(from string, b []byte) {
+		for _, n := range []int{16, 24, 32} {
+			for i := 0; i+n <= len(b); i++ {
+				out = append(out, c02KeyCand{fmt.Sprintf("%s[%d:%d]", from, i, i+n), b[i : i+n]})
+			}
+		}
+	}
+	isHex := func(c byte) bool { return (c >= '0' && c <= '9') || (c >= 'a' && c <= 'f') || (c >= 'A' && c <= 'F') }
+	for i := 0; i < len(name); {
+		j := i
+		for j < len(name) && isHex(name[j]) {
+			j++
+		}
+		if j-i >= 32 {
+			run := name[i:j]
+			for _, r := range []string{run, run[1:]} { // both nibble alignments
+				r = r[:len(r)/2*2]
+				if b, err := hex.DecodeString(r); err == nil {
+					windows("hex-decoded key name", b)
+				}
+			}
+		}
+		if j == i {
+			j++
+		}
+		i = j
+	}
+	windows("key name bytes", []byte(name))
+	lead := val
+	if len(lead) > 72 {
+		lead = lead[:72]
+	}
+	windows("leading bytes of the value", lead)
+	return out
+}
+
+// c02OpenGCM tries to open a store value (nonce = first 12 bytes) with key.
+func c02OpenGCM(key, val []byte) ([]byte, bool) {
+	if len(val) < 12+16 {
+		return nil, false
+	}
+	blk, err := aes.NewCipher(key)
+	if err != nil {
+		return nil, false
+	}
+	g, err := cipher.NewGCM(blk)
+	if err != nil {
+		return nil, false
+	}
+	pt, err := g.Open(nil, val[:12], val[12:], nil)
+	return pt, err == nil
+}
+
+// c02DecryptFromStoreContents: does the entry open with a key that is itself readable from the store?
+func c02DecryptFromStoreContents(name string, val []byte) (from string, plaintext []byte, tried int, ok bool) {
+	cands := c02StoreKeyCandidates(name, val)
+	for _, cd := range cands {
+		if pt, ok := c02OpenGCM(cd.Key, val); ok {
+			return cd.From, pt, len(cands), true
+		}
+	}
+	return "", nil, len(cands), false
+}
+
+type c02PadResult struct {
+	ZeroRun   int      // longest run of equal bytes at equal offsets of the two ciphertext bodies
+	Recovered *c02Leak // a known secret of one version recovered from body1 XOR body2 XOR (known secret of the other version)
+	Using     string
+	Offset    int
+}
+
+// c02TwoTimePad plays the observer who holds two versions of one store entry and knows (parts of) the OLDER one:
+// if both were encrypted with the same key stream, body1 XOR body2 XOR old-plaintext = new plaintext.
+func c02TwoTimePad(v1, v2 []byte, known map[string]string, sec *c02Secrets) c02PadResult {
+	var res c02PadResult
+	if len(v1) < 12+16+8 || len(v2) < 12+16+8 {
+		return res
+	}
+	a, b := v1[12:len(v1)-16], v2[12:len(v2)-16]
+	n := len(a)
+	if len(b) < n {
+		n = len(b)
+	}
+	x := make([]byte, n)
+	run := 0
+	for i := 0; i < n; i++ {
+		x[i] = a[i] ^ b[i]
+		if x[i] == 0 {
+			run++
+			if run > res.ZeroRun {
+				res.ZeroRun = run
+			}
+		} else {
+			run = 0
+		}
+	}
+	for label, s := range known {
+		if len(s) < 12 || len(s) > 64 {
+			continue
+		}
+		y := make([]byte, len(s))
+	next:
+		for off := 0; off+len(s) <= n; off++ {
+			nz := 0
+			for i := range y {
+				y[i] = x[off+i] ^ s[i]
+				if y[i] < 0x20 || y[i] > 0x7e {
+					continue next
+				}
+				if x[off+i] != 0 {
+					nz++
+				}
+			}
+			if nz < 8 { // (nearly) identical plaintext in both versions: nothing NEW is learnt here
+				continue
+			}
+			// only windows in which the two versions really differ count: where they agree, y is just the known secret again
+			for k := 0; k+8 <= len(y); k++ {
+				d := 0
+				for i := k; i < k+8; i++ {
+					if x[off+i] != 0 {
+						d++
+					}
+				}
+				if d < 5 {
+					continue
+				}
+				if l := sec.scan("version1 XOR version2 XOR "+label, y[k:k+8]); l != nil {
+					res.Recovered, res.Using, res.Offset = l, label, off+k
+					return res
+				}
+			}
+		}
+	}
+	return res
+}
+
+// c02CryptoSelfTest: the three observers must see what they are meant to see, and nothing in sound material.
+func c02CryptoSelfTest() error {
+	seal := func(key, nonce, pt []byte) []byte {
+		blk, _ := aes.NewCipher(key)
+		g, _ := cipher.NewGCM(blk)
+		return g.Seal(append([]byte{}, nonce...), nonce, pt, nil)
+	}
+	id := []byte("0123456789abcdef")
+	key2 := []byte("fedcba9876543210")
+	nonce := []byte("nonce-nonce-")
+	p1 := []byte("\x8a\xa2at\xb6at-11-00112233445566aa\xa1e\xb3dora.selftest@x.example....")
+	p2 := []byte("\x8a\xa2at\xb6at-12-8899aabbccddeeff\xa1e\xb3dora.selftest@x.example....")
+	name := "_oauth2_proxy-" + hex.EncodeToString(id)
+	if _, _, _, ok := c02DecryptFromStoreContents(name, seal(id, nonce, p1)); !ok {
+		return fmt.Errorf("crypto self-test: entry encrypted under the bytes of its own key name was not opened")
+	}
+	if _, _, _, ok := c02DecryptFromStoreContents(name, seal(key2, nonce, p1)); ok {
+		return fmt.Errorf("crypto self-test: entry under an unrelated key was opened")
+	}
+	sec := c02NewSecrets()
+	sec.Add("new token", "at-12-8899aabbccddeeff")
+	r := c02TwoTimePad(seal(key2, nonce, p1), seal(key2, nonce, p2), map[string]string{"old token": "at-11-00112233445566aa"}, sec)
+	if r.Recovered == nil || r.ZeroRun < 16 {
+		return fmt.Errorf("crypto self-test: two-time pad not exploited (zero run %d)", r.ZeroRun)
+	}
+	r = c02TwoTimePad(seal(key2, nonce, p1), seal(key2, []byte("another-nonc"), p2), map[string]string{"old token": "at-11-00112233445566aa"}, sec)
+	if r.Recovered != nil || r.ZeroRun >= 8 {
+		return fmt.Errorf("crypto self-test: false two-time-pad alarm")
+	}
+	return nil
 }
